@@ -58,12 +58,31 @@ func (vc *VC) getValues(o *Obl, extra []string, terms []string, dir string) (map
 	}
 	file := filepath.Join(dir, "model_"+smtName(o.Name)+".smt2")
 	os.WriteFile(file, []byte(sb.String()), 0o644)
-	r := runSolver(solvers[0], file, 10)
-	if r.status != "sat" {
-		r = runSolver(solvers[2], file, 10)
-		if r.status != "sat" {
-			return nil, false
+	// the solver that found the model goes first
+	order := []solverSpec{}
+	for _, sp := range solvers {
+		if sp.Name == o.Solver {
+			order = append(order, sp)
 		}
+	}
+	for _, sp := range solvers {
+		if sp.Name != o.Solver {
+			order = append(order, sp)
+		}
+	}
+	var r solveOut
+	for i, sp := range order {
+		to := 10
+		if i > 0 {
+			to = 5
+		}
+		r = runSolver(sp, file, to)
+		if r.status == "sat" {
+			break
+		}
+	}
+	if r.status != "sat" {
+		return nil, false
 	}
 	lines := strings.Split(r.output, "\n")
 	// join everything after the first line and split top-level s-expressions
